@@ -57,8 +57,18 @@ def anchors():
     from plasTeX.Base.TeX.Primitives import MathShift
     from plasTeX.Base.LaTeX.Lists import List
     from plasTeX.Packages import article
-    return {'ParameterCommand.invoke': plasTeX.ParameterCommand.invoke, 'MathShift.invoke': MathShift.invoke, 'List.invoke': List.invoke,
-            'article.ProcessOptions': article.ProcessOptions, 'TeXDocument.__init__': plasTeX.TeXDocument.__init__}
+    from plasTeX.TeX import TeX
+    d = {'ParameterCommand.invoke': plasTeX.ParameterCommand.invoke, 'MathShift.invoke': MathShift.invoke, 'List.invoke': List.invoke,
+         'article.ProcessOptions': article.ProcessOptions, 'TeXDocument.__init__': plasTeX.TeXDocument.__init__}
+    for n in SWITCH_FUNCS:
+        d['TeX.' + n] = getattr(TeX, n)
+    return d
+
+
+# every statement that turns the interpreter-wide argument-scanning switch back on must be executed by the workload
+# (a leak on a return path nobody takes would otherwise go unnoticed: then the verdict is inconclusive, not held)
+SWITCH_FUNCS = ['readArgumentAndSource', 'readDimen', 'readUnitOfMeasure', 'readInteger', 'readGlue', 'readMuGlue']
+WATCH_LINES = dict(('TeX.' + n, r'ParameterCommand\.enable\(\)') for n in SWITCH_FUNCS)
 
 
 HOSTILE = [
@@ -80,6 +90,11 @@ HOSTILE = [
     ('verbatim-open', '\\documentclass{article}\\begin{document}Wq1x \\begin{verbatim}\nWq2x'),
     ('appendix', '\\documentclass{article}\\begin{document}\\section{Wq1x}\\appendix\\section{Wq2x}\\end{document}'),
     ('amsmath', '\\documentclass{article}\\usepackage{amsmath}\\begin{document}\\begin{align}a&=b\\\\c&=d\\end{align}\\end{document}'),
+    ('register-from-register', '\\documentclass{article}\\begin{document}\\parindent=\\parskip \\parskip=\\baselineskip \\parindent=2\\parskip \\thinmuskip=\\medmuskip '
+                               '\\medmuskip=3mu plus 1mu \\tolerance=\\pretolerance Wq1x \\the\\parindent\\end{document}'),
+    ('mu-arguments', '\\documentclass{article}\\begin{document}Wq1x \\zqmuargs 3mu 4mu plus 1mu Wq2x \\zqmuargs{2mu}{\\thinmuskip} Wq3x\\end{document}'),
+    ('ifx-macros', '\\documentclass{article}\\begin{document}\\def\\zqe{}\\def\\zqt{no}\\def\\zqu{no}\\ifx\\zqt\\zqe Wq1x\\else Wq2x\\fi \\ifx\\zqt\\zqu Wq3x\\fi '
+                   '\\ifx a\\zqt Wq4x\\fi \\ifx\\zqe\\relax Wq5x\\fi \\parindent=20pt Wq6x\\end{document}'),
     # base classes whose derived classes appear in the probes (per-class memos must not be inherited by the subclass)
     ('eqnarray-star', '\\documentclass{article}\\begin{document}\\begin{eqnarray*}a&=&b\\\\c&=&d\\end{eqnarray*}Wq1x\\end{document}'),
     ('tabular-array', '\\documentclass{article}\\begin{document}\\begin{tabular}{ll}Wq1x&Wq2x\\\\Wq3x&Wq4x\\end{tabular} $\\begin{array}{c}a\\\\b\\end{array}$\\end{document}'),
@@ -146,6 +161,9 @@ def gen_doc(r):
 
 
 def cases(seed, tier, shard, nshards):
+    # every hand-written document once, whatever the seed (the watched statements must not depend on the draw)
+    for i in common.sharded(len(HOSTILE), shard, nshards):
+        yield {'A': [list(HOSTILE[i])], 'B': ['probe', PROBES[i % len(PROBES)]], 'render': i % 3 == 0, 'renderer': 'HTML5' if i % 2 else 'XHTML'}
     for i in common.sharded(budget(tier)['n'], shard, nshards):
         r = common.rng_for(seed, PROP, i)
         As = [gen_doc(r) for _ in range(r.randint(1, 4))]
@@ -161,12 +179,25 @@ def cases(seed, tier, shard, nshards):
 
 # ---------------------------------------------------------------------------
 
+_custom = []
+
+
+def install_custom(tex, doc):
+    """a package-style command whose arguments are read as math dimension and math glue (no command of the distribution
+    declares these argument types; the readers exist for package authors).  Installed for every document alike."""
+    import plasTeX
+    if not _custom:
+        _custom.append(type('zqmuargs', (plasTeX.Command,), {'args': 'a:MuDimen b:MuGlue', 'macroName': 'zqmuargs'}))
+    doc.context.addGlobal('zqmuargs', _custom[0])
+
+
 def process(src, render, renderer='HTML5'):
     """-> canonical observable result of one document (tree, and files when rendered)"""
     from plasTeX.TeX import TeX
     table = {}
     if not render:
         tex = TeX()
+        install_custom(tex, tex.ownerDocument)
         tex.input(src)
         try:
             doc = tex.parse()
@@ -177,7 +208,7 @@ def process(src, render, renderer='HTML5'):
             err = type(e).__name__ + ':' + str(e)[:100]
         return {'xml': R.canon_ids(xml, table), 'files': {}, 'error': err}
     try:
-        out = R.render(src, renderer)
+        out = R.render(src, renderer, before_parse=install_custom)
     except Exception as e:
         return {'xml': '', 'files': {}, 'error': type(e).__name__ + ':' + str(e)[:100]}
     try:
